@@ -183,7 +183,7 @@ def module_case(arg):
                                     "coords": gm["coords"], "struct": s.name, "text": gm["text"]})
             elif out["sample"] is None and opn == "eq" and kind == "flip-uncovered" and r.get("eq_ab") == "1":
                 out["sample"] = {"struct": s.name, "kind": kind, "a": a.hex(), "b": bb.hex(), "equals": r.get("eq_ab")}
-    out["viol"] = out["viol"][:40]
+    out["viol"] = common.cap_by_mech(out["viol"])
     return out
 
 
